@@ -277,3 +277,166 @@ def replay_c08_fq(args):
         if x.n != a:
             bad.append(("mutated", a))
     return (len(bad) > 0), "c08_fq %s/%s: %d mismatches; first: %s" % (args["impl"], args["curve"], len(bad), str(bad[:1])[:400])
+
+
+def _rand_fqp(rng, K, deg, p):
+    return K([rng.randrange(p) for _ in range(deg)])
+
+
+def _model_mul(a, b, mc, p):
+    d = len(a)
+    c = [0] * (2 * d - 1)
+    for i in range(d):
+        for j in range(d):
+            c[i + j] += a[i] * b[j]
+    for k in range(2 * d - 2, d - 1, -1):
+        top = c[k]
+        for i in range(d):
+            c[k - d + i] -= top * mc[i]
+    return [x % p for x in c[:d]]
+
+
+def _ints(x):
+    return [int(c) for c in x.coeffs]
+
+
+def replay_c08_fqp(args):
+    K = _fq_class(args["impl"], args["curve"], "FQ%d" % args["deg"])
+    p, deg = K.field_modulus, args["deg"]
+    mc = list(K.FQ2_MODULUS_COEFFS if deg == 2 else K.FQ12_MODULUS_COEFFS)
+    rng = random.Random(11)
+    bad = []
+    specials = [[0] * deg, [1] + [0] * (deg - 1), [p - 1] * deg, [0] * (deg - 1) + [1]]
+    pts = args.get("point") or {}
+    if pts:
+        specials.append([int(pts.get("a%d" % i, 0)) % p for i in range(deg)])
+        specials.append([int(pts.get("b%d" % i, 0)) % p for i in range(deg)])
+    elems = specials + [[rng.randrange(p) for _ in range(deg)] for _ in range(4)]
+    for a in elems:
+        for b in elems:
+            x, y = K(a), K(b)
+            if _ints(x * y) != _model_mul(a, b, mc, p):
+                bad.append(("mul", a, b))
+            if _ints(x + y) != [(u + v) % p for u, v in zip(a, b)] or _ints(x - y) != [(u - v) % p for u, v in zip(a, b)]:
+                bad.append(("addsub", a, b))
+            if (x == y) != ([u % p for u in a] == [v % p for v in b]):
+                bad.append(("eq", a, b))
+        for k in (0, 1, -1, p, p + 5, -3 * p - 2, int(pts.get("k", 7))):
+            if _ints(K(a) * k) != [u * k % p for u in a] or _ints(k * K(a)) != [u * k % p for u in a]:
+                bad.append(("smul", a, k))
+        if _ints(-K(a)) != [-u % p for u in a]:
+            bad.append(("neg", a))
+        if any(not (0 <= c < p) for c in _ints(K(a) * K(a))):
+            bad.append(("range", a))
+    return (len(bad) > 0), "c08_fqp %s: %d mismatches; first: %s" % (args, len(bad), str(bad[:1])[:300])
+
+
+def replay_c08_fqp_adhoc(args):
+    """ad-hoc FQP subclasses (degrees 2..4, random monic moduli) against the textbook product."""
+    from py_ecc.fields import field_elements as refM, optimized_field_elements as optM
+    from py_ecc.fields import bn128_FQ
+    p = bn128_FQ.field_modulus
+    rng = random.Random(3)
+    bad = []
+    for d in (2, 3, 4):
+        for _ in range(4):
+            mc = [rng.randrange(p) for _ in range(d)]
+
+            class RefT(refM.FQP):
+                field_modulus = p
+                degree = d
+
+                def __init__(self, coeffs, modulus_coeffs=None):
+                    refM.FQP.__init__(self, coeffs, mc)
+
+            class OptT(optM.FQP):
+                field_modulus = p
+                degree = d
+                mc_tuples = list(enumerate(mc))
+
+                def __init__(self, coeffs, modulus_coeffs=None):
+                    optM.FQP.__init__(self, coeffs, mc)
+            a = [rng.randrange(p) for _ in range(d)]
+            b = [rng.randrange(p) for _ in range(d)]
+            exp = _model_mul(a, b, mc, p)
+            for T in (RefT, OptT):
+                if _ints(T(a) * T(b)) != exp:
+                    bad.append((T.__name__, d, a, b, mc))
+    return (len(bad) > 0), "c08_fqp_adhoc: %d mismatches; first %s" % (len(bad), str(bad[:1])[:300])
+
+
+def replay_c08_pow(args):
+    """x ** n against the n-fold product (via builtin pow on the representative / repeated squaring
+    in the harness), for the model exponent and a range of boundary exponents incl. very large ones."""
+    impl, kind = args["impl"], args["kind"]
+    bad = []
+    ns = [0, 1, 2, 3, 4, 5, 7, 8, 15, 16, 31, 63, 64, 65, 255, 256, 1023, 2 ** 64 + 1]
+    m = (args.get("model") or {}).get("n")
+    if m is not None:
+        ns.append(int(m))
+    ns += [int(x) for x in args.get("extra_n", [])]
+    for curve in ("bn128", "bls12_381"):
+        K = _fq_class(impl, curve, kind)
+        p = K.field_modulus
+        for n in ns:
+            try:
+                if kind == "FQ":
+                    got = (K(3) ** n).n
+                    exp = pow(3, n, p)
+                else:
+                    deg = 12 if kind == "FQ12" else 2
+                    x = K([3, 1] + [0] * (deg - 2))
+                    got = _ints(x ** n)
+                    # independent square-and-multiply over the textbook product
+                    mc = list(K.FQ12_MODULUS_COEFFS if deg == 12 else K.FQ2_MODULUS_COEFFS)
+                    acc, base, e = [1] + [0] * (deg - 1), [3, 1] + [0] * (deg - 2), n
+                    while e:
+                        if e & 1:
+                            acc = _model_mul(acc, base, mc, p)
+                        base = _model_mul(base, base, mc, p)
+                        e >>= 1
+                    exp = acc
+            except RecursionError:
+                bad.append(("RecursionError", curve, n.bit_length()))
+                continue
+            except Exception as e:
+                bad.append((repr(e), curve, n))
+                continue
+            if got != exp:
+                bad.append((curve, n))
+    return (len(bad) > 0), "c08_pow %s %s: %d failures; first: %s" % (impl, kind, len(bad), str(bad[:2])[:300])
+
+
+def replay_c08_inv(args):
+    """prime_field_inv / secp256k1.inv against pow(a, -1, n) on the model and on exhaustive small cases."""
+    which = args["which"]
+    if which == "prime_field_inv":
+        from py_ecc.utils import prime_field_inv as f
+    else:
+        from py_ecc.secp256k1.secp256k1 import inv as f
+    bad = []
+    cases = []
+    m = args.get("model") or {}
+    if "a" in m and "n" in m:
+        cases.append((int(m["a"]), int(m["n"])))
+    for n in (2, 3, 5, 7, 11, 13, 17, 19, 23, 29, 31, 37, 41, 43, 101, 127):
+        rng = range(-2 * n, 2 * n + 1) if which == "prime_field_inv" else range(0, n)
+        cases += [(a, n) for a in rng]
+    big = [21888242871839275222246405745257275088696311157297823662689037894645226208583,
+           4002409555221667393417789825735904156556882819939007885332058136124031650490837864442687629129015664037894272559787,
+           2 ** 256 - 2 ** 32 - 977, 115792089237316195423570985008687907852837564279074904382605163141518161494337]
+    rng = random.Random(1)
+    for n in big:
+        cases += [(a, n) for a in (0, 1, 2, n - 1, n - 2, (n - 1) // 2, (n + 1) // 2)] + [(rng.randrange(n), n) for _ in range(8)]
+        if which == "prime_field_inv":
+            cases += [(n, n), (n + 1, n), (-1, n), (2 * n, n)]
+    for a, n in cases:
+        try:
+            v = f(a, n)
+        except Exception as e:
+            bad.append((a, n, repr(e)))
+            continue
+        exp = 0 if a % n == 0 else pow(a, -1, n)
+        if v != exp:
+            bad.append((a, n, v, exp))
+    return (len(bad) > 0), "c08_inv %s: %d mismatches; first %s" % (which, len(bad), str(bad[:2])[:300])
